@@ -73,7 +73,11 @@ func (i *Ignore) IsIncluded(path string, index *Index) bool {
 	}
 	for _, exFile := range i.paths {
 		// (?s): a file name may contain a line break, which '.' would not match otherwise
-		exRegexp := regexp.MustCompile(fmt.Sprintf("(?s)(^|/)(?:%s)$", exFile))
+		exRegexp, err := regexp.Compile(fmt.Sprintf("(?s)(^|/)(?:%s)$", exFile))
+		if err != nil {
+			// a line of .goitignore that does not make a valid pattern excludes nothing
+			continue
+		}
 		if exRegexp.MatchString(target) {
 			return true
 		}
